@@ -12,6 +12,9 @@ tenths of a second; the gthread worker takes the whole graceful timeout.
 
 Run:  cd /tmp/wa_C04 && PYTHONPATH=/tmp/wa_C04 /venv/bin/python _finding/1/demo.py
 """
+import os as _os
+_TREE_UNDER_TEST = _os.environ.get("GVERIF_REPO") or _os.getcwd()   # the checkout under test (was the auditing agent's scratch worktree)
+
 import os
 import shutil
 import signal
@@ -21,7 +24,7 @@ import sys
 import tempfile
 import time
 
-ROOT = "/tmp/wa_C04"
+ROOT = _TREE_UNDER_TEST
 sys.path.insert(0, ROOT)
 
 GRACEFUL = 6        # graceful timeout given to gunicorn (seconds)
